@@ -1,7 +1,13 @@
 use super::*;
 use crate::base::{BaseSlot, BlockError, EntryContext, StatSlot};
+#[cfg(not(sentinel_verif))]
 use lazy_static::lazy_static;
+#[cfg(sentinel_verif)]
+use sentinel_verif_rt::lazy_static;
+#[cfg(not(sentinel_verif))]
 use std::sync::Arc;
+#[cfg(sentinel_verif)]
+use sentinel_verif_rt::sync::Arc;
 
 const STAT_SLOT_ORDER: u32 = 5000;
 
